@@ -157,12 +157,15 @@ var gRules = []gSrc{
 		"param: param",
 		"paren: ( expr )",
 		"field: accessible ~.~ ident",
+		"kwfield: dotable ~.~ dot_ident",
 		"subscript: accessible ~'[' subscript ']'",
 		"call: call",
 		"scalar_subquery: ( nested_query )",
 		"array: array_lit",
 		"struct: typeless_struct",
 		"cast: cast"),
+	// operands after which the lexical rule for path expressions applies (they end in a name, a parameter, ")" or "]"): the field name may be spelled like a reserved keyword
+	rule("dotable", "name: ident", "param: param", "paren: ( expr )", "field: dotable ~.~ dot_ident", "subscript: dotable ~'[' subscript ']'", "call: func_name ~( call_args )"),
 	// array subscript operator: array[{ index | OFFSET(i) | SAFE_OFFSET(i) | ORDINAL(i) | SAFE_ORDINAL(i) }]; JSON subscript json[key]
 	rule("subscript", "index: expr", "offset: OFFSET ~( expr )", "safe_offset: SAFE_OFFSET ~( expr )", "ordinal: ORDINAL ~( expr )", "safe_ordinal: SAFE_ORDINAL ~( expr )"),
 	rule("primary",
@@ -399,7 +402,7 @@ var gRules = []gSrc{
 	rule("drop_property_graph", "DROP PROPERTY GRAPH [ IF EXISTS ] ident"),
 
 	// a path is a dot-separated list of identifiers (table in a named schema, proto type, function in a namespace, field path)
-	rule("path", "{1 ident / ~.~ }"),
+	rule("path", "ident {0 ~.~ dot_ident }"),
 	// object names of DDL and DML: name, or schema.name for an object in a named schema
 	rule("table_name", "ident", "qualified: ident ~.~ ident"),
 }
@@ -416,6 +419,10 @@ var gLexRules = []gLexSrc{
 		{`b'\x00\xff'`, "bytes:\x00\xff"}}},
 	{name: "param", cycle: 2, alts: []gLexAlt{{"@p", "param:P"}, {"@q", "param:Q"}, {"@P1", "param:P1"}, {"@_x", "param:_X"}, {"@date", "param:DATE"}, {"@value", "param:VALUE"}}},
 	gIdentRule(),
+	// lexical structure page, "path expressions": after a dot an identifier may be spelled like a reserved keyword without back quotes
+	{name: "dot_ident", cycle: 3, alts: []gLexAlt{{"f", "id:F"}, {"g", "id:G"}, {"h", "id:H"}, {"group", "id:GROUP"}, {"order", "id:ORDER"}, {"select", "id:SELECT"},
+		{"hash", "id:HASH"}, {"SET", "id:SET"}, {"default", "id:DEFAULT"}, {"new", "id:NEW"}, {"range", "id:RANGE"}, {"enum", "id:ENUM"}, {"proto", "id:PROTO"},
+		{"By", "id:BY"}, {"from", "id:FROM"}, {"null", "id:NULL"}, {"in", "id:IN"}, {"all", "id:ALL"}, {"`x y`", "id:X Y"}, {"date", "id:DATE"}, {"offset", "id:OFFSET"}}},
 }
 
 // ordinary names first (the default derivation rotates through them so that the positions of a sentence get distinct names),
